@@ -28,12 +28,13 @@ type c14File struct {
 }
 
 type c14Case struct {
-	V0       string    `json:"v0"`
-	Y0       string    `json:"y0"`
-	Versions []string  `json:"versions"`
-	Years    []string  `json:"years"`
-	Files    []c14File `json:"files"`
-	Decoys   sut.Tree  `json:"decoys"`
+	V0       string      `json:"v0"`
+	Y0       string      `json:"y0"`
+	Versions []string    `json:"versions"`
+	Years    []string    `json:"years"`
+	Files    []c14File   `json:"files"`
+	Decoys   sut.Tree    `json:"decoys"`
+	IO       *ioScenario `json:"io,omitempty"` // an I/O-fault scenario (the other fields are unused then)
 }
 
 var c14Digits = regexp.MustCompile(`\d+`)
@@ -155,6 +156,9 @@ func c14Gen(r *rand.Rand) *c14Case {
 
 func c14Check(env *core.Env, cc core.Case) core.Verdict {
 	c := cc.(*c14Case)
+	if c.IO != nil {
+		return ioScenarioCheck(env, "C14", c.IO)
+	}
 	root := emptyRoot(env)
 	defer rmCase(root)
 	tree := sut.Tree{}
@@ -285,6 +289,9 @@ func init() {
 			var cs []core.Case
 			for i := 0; i < n; i++ {
 				cs = append(cs, c14Gen(rng))
+			}
+			for _, sc := range ioCases("C14") {
+				cs = append(cs, &c14Case{IO: sc})
 			}
 			return cs
 		},
